@@ -135,6 +135,8 @@ type VC struct {
 	curClause   string
 	recHeaps    map[string]string // when non-nil: records the heaps read (name -> sort)
 	sliceBack   map[string]*Loc // array-backed slices: arr term -> backing location
+	inl         *inlineFrame    // non-nil while the body of a contract-less callee is executed in place
+	inlDepth    int
 }
 
 type mapIter struct {
@@ -945,7 +947,7 @@ func (vc *VC) execBlocks(order []*ssa.BasicBlock, entrySt *State) {
 	for _, b := range order {
 		var st *State
 		var edges []inEdge
-		if b == vc.fn.Blocks[0] {
+		if b == order[0] {
 			st = entrySt
 		} else {
 			for _, p := range b.Preds {
